@@ -53,7 +53,10 @@ def main():
     rnd = random.Random(seed)
     names = sorted(g.name for g in groups if getattr(g, "reach", True))
     if a.tier == "thorough":
-        reach = set(names)
+        # every group gets its vacuity pass, except in the very large enumerations (thousands of groups that differ only
+        # in a constant position/length and share one harness), where a seed-rotated quarter is re-run for vacuity
+        k = seed % 4
+        reach = set(names) if len(names) <= 600 else set(n for i, n in enumerate(names) if i % 4 == k)
     else:
         k = seed % 3
         reach = set(n for i, n in enumerate(names) if i % 3 == k)
